@@ -154,6 +154,20 @@ struct Run {
 
 /// One sequence on a fresh channel. `stats`: None in replay mode.
 fn run_seq(seq: &[Sym], routes_configured: bool, stats: Option<&Stats>) -> Run {
+    let mut bytes = vec![routes_configured as u8];
+    bytes.extend(seq.iter().map(|s| ALL.iter().position(|x| x == s).unwrap() as u8));
+    h_drv::watchdog::enter(&bytes);
+    let run = run_seq_inner(seq, routes_configured, stats);
+    h_drv::watchdog::leave();
+    run
+}
+
+fn describe_hang(bytes: &[u8]) -> Value {
+    let names: Vec<&str> = bytes.iter().skip(1).filter_map(|c| ALL.get(*c as usize)).map(|s| s.name()).collect();
+    json!({"ops": names, "routes_configured": bytes.first().copied().unwrap_or(1) == 1, "note": "one of these channel calls does not return"})
+}
+
+fn run_seq_inner(seq: &[Sym], routes_configured: bool, stats: Option<&Stats>) -> Run {
     let mut ch = UpdateChannel::new();
     let mut eager = Published::default(); // every fetch result handed over one by one
     let mut actual = Published::default(); // what the received values add up to
@@ -559,6 +573,8 @@ fn run_starter(seq: &[StSym], stats: Option<&AtomicU64>) -> Option<Result<(), (&
 }
 
 fn main() {
+    h_drv::watchdog::guard("C19", "update-merge", "model_checking", "E-ENUM", "poll:does-not-return");
+    h_drv::watchdog::start_monitor(std::time::Duration::from_secs(10), describe_hang);
     vcore::quiet_panics();
     let r = Report::new("C19", "update-merge", "model_checking", "E-ENUM");
     if let Some(case) = r.replay_case() {
